@@ -3,7 +3,7 @@
    Tables, dispatch bounds and low-end constants come from gen/Tables.v = the current source text of /repo. *)
 From Coq Require Import ZArith.
 Require Import C12.gen.Tables.
-From C12 Require Import PrimeB Model ProofsSweep ProofsTable ProofsTab12 ProofsPrimes16 ProofsPPTable ProofsNext ProofsFactor ProofsDivisors ProofsDivisorsNoDup ProofsPower ProofsComplete ProofsSetForms.
+From C12 Require Import PrimeB Model ProofsSweep ProofsTable ProofsTab12 ProofsPrimes16 ProofsPPTable ProofsNext ProofsFactor ProofsDivisors ProofsDivisorsNoDup ProofsPower ProofsComplete ProofsSetForms ModelScript ProofsScript ProofsDecide.
 Local Open Scope Z_scope.
 
 Theorem C12_isprime_exact_below_65536 : Isprime_table_stmt.          Proof. exact isprime_table. Qed.
@@ -56,3 +56,21 @@ Theorem C12_set_one_container_distinct_factors : Set1_stmt.                Proof
 Print Assumptions C12_set_one_container_distinct_factors.
 Theorem C12_divisors_no_repetition : Divisors_NoDup_stmt.                    Proof. exact divisors_nodup. Qed.
 Print Assumptions C12_divisors_no_repetition.
+Theorem C12_isprime_exact_for_all_n_given_gmp : Isprime_all_stmt.           Proof. exact isprime_all. Qed.
+Print Assumptions C12_isprime_exact_for_all_n_given_gmp.
+Theorem C12_pollard_nontrivial_divisor_any_start : Pollard_all_stmt.         Proof. exact pollard_all. Qed.
+Print Assumptions C12_pollard_nontrivial_divisor_any_start.
+Theorem C12_iffactorprime_prime_divisor_any_script : Iffactorprime_all_stmt. Proof. exact iffactorprime_all. Qed.
+Print Assumptions C12_iffactorprime_prime_divisor_any_script.
+Theorem C12_primefactor_prime_divisor_any_script : Primefactor_all_stmt.     Proof. exact primefactor_all. Qed.
+Print Assumptions C12_primefactor_prime_divisor_any_script.
+Theorem C12_factor_in_place : Factor_inplace_stmt.                           Proof. exact factor_inplace. Qed.
+Print Assumptions C12_factor_in_place.
+Theorem C12_pollard_in_place : Pollard_inplace_stmt.                         Proof. exact pollard_inplace. Qed.
+Print Assumptions C12_pollard_in_place.
+Theorem C12_miller_accepts_primes_below_256_partial : Miller_partial_stmt.   Proof. exact miller_partial. Qed.
+Print Assumptions C12_miller_accepts_primes_below_256_partial.
+Theorem C12_miller_witness_zero : Miller_zero_stmt.                          Proof. exact miller_zero. Qed.
+Print Assumptions C12_miller_witness_zero.
+Theorem C12_isprimepower_decides : Isprimepower_decides_stmt.                Proof. exact isprimepower_decides. Qed.
+Print Assumptions C12_isprimepower_decides.
